@@ -28,7 +28,8 @@ RULE = (
     "  A fourth route is Engine.make_leaf with empty and non-empty payloads; prefixes include identifier-like, "
     "58-72 character, non-identifier ('deepCoadd.calexp', 'u/someone/run 1') and non-ASCII ones.  Half of the engines "
     "of a round are additionally cloned (copy.copy, copy.deepcopy or a pickle round trip) after they have handed "
-    "out some names; the clone is a different engine that takes part in the round like the others. "
+    "out some names; the clone is a different engine that takes part in the round like the others.  A fifth route "
+    "materializes without a name, transfers the result to another engine and materializes again without a name. "
 )
 ASSUMPTIONS = [
     "schedules are explored only at the statement boundaries of get_relation_name (the only shared mutable state "
@@ -130,7 +131,7 @@ def one_round(rng, nthreads, nreq):
     plans = []
     for t in range(nthreads):
         r = random.Random(rng.random())
-        plans.append([(r.randrange(nengines), r.choice(["direct", "leaf", "mat", "makeleaf"]), r.choice(prefixes)) for _ in range(nreq)])
+        plans.append([(r.randrange(nengines), r.choice(["direct", "leaf", "mat", "makeleaf", "direct", "leaf", "mat", "makeleaf", "matx"]), r.choice(prefixes)) for _ in range(nreq)])
     results = [[] for _ in range(nthreads)]
     errors = []
     barrier = threading.Barrier(nthreads)
@@ -153,7 +154,25 @@ def one_round(rng, nthreads, nreq):
                         while not isinstance(node, R.LeafRelation):
                             node = node.target
                         name = node.name
-                elif route == "leaf":
+                elif route == "matx" and len(engines) > 1:
+                    # materialize, move to another engine, materialize again - both without a name:
+                    # two requests, the second one made below an existing materialization
+                    m1 = bases[ei].materialized(name_prefix=prefix)
+                    node = m1
+                    while not isinstance(node, R.Materialization):
+                        node = node.target
+                    results[t].append((node.name, prefix, ei, "matx1"))
+                    ej = (ei + 1 + len(results[t])) % len(engines)
+                    if ej == ei:
+                        ej = (ei + 1) % len(engines)
+                    prefix = prefix + "2"
+                    m2 = m1.transferred_to(engines[ej]).materialized(name_prefix=prefix)
+                    node = m2
+                    while not isinstance(node, R.Materialization):
+                        node = node.target
+                    name = node.name
+                    ei = ej
+                elif route == "leaf" or route == "matx":
                     name = R.LeafRelation(e, frozenset({a}), iteration.RowSequence([]), name="", name_prefix=prefix).name
                 else:
                     m = bases[ei].materialized(name_prefix=prefix)
